@@ -36,6 +36,19 @@ fn build_iter(r: &Ref, rot: usize) -> SlotMap {
     v.into_iter().collect()
 }
 
+/// the `From<[(Slot, Slot); N]>` constructor (reverse key order), for maps of up to four pairs
+fn build_array(r: &Ref) -> Option<SlotMap> {
+    let v: Vec<(Slot, Slot)> = r.iter().rev().map(|(a, b)| (*a, *b)).collect();
+    Some(match v.len() {
+        0 => SlotMap::from([]),
+        1 => SlotMap::from([v[0]]),
+        2 => SlotMap::from([v[0], v[1]]),
+        3 => SlotMap::from([v[1], v[0], v[2]]),
+        4 => SlotMap::from([v[2], v[0], v[3], v[1]]),
+        _ => return None,
+    })
+}
+
 fn is_inj(r: &Ref) -> bool {
     let s: BTreeSet<Slot> = r.values().copied().collect();
     s.len() == r.len()
@@ -77,7 +90,11 @@ fn observe(m: &SlotMap, r: &Ref, universe: &[Slot]) -> Result<u64, String> {
     let perm = inj && r.keys().copied().collect::<BTreeSet<_>>() == r.values().copied().collect::<BTreeSet<_>>();
     chk!("is_perm", m.is_perm() == perm);
     // construction-order independence of Eq / Hash / Ord
-    for (nm, o) in [("sorted", build_sorted(r)), ("rev", build_rev(r)), ("iter", build_iter(r, 1)), ("iter2", build_iter(r, 2))] {
+    let mut builds = vec![("sorted", build_sorted(r)), ("rev", build_rev(r)), ("iter", build_iter(r, 1)), ("iter2", build_iter(r, 2))];
+    if let Some(a) = build_array(r) {
+        builds.push(("array", a));
+    }
+    for (nm, o) in builds {
         chk!(format!("eq-vs-{nm}"), *m == o && o == *m);
         chk!(format!("hash-vs-{nm}"), h(m) == h(&o));
         chk!(format!("ord-vs-{nm}"), m.cmp(&o) == std::cmp::Ordering::Equal && m.partial_cmp(&o) == Some(std::cmp::Ordering::Equal));
